@@ -71,6 +71,12 @@ func c18Inputs(tier string) []c18Input {
 	}
 	ins = append(ins, c18Input{Name: "160-records-6KB", Text: bigIn.String(), FailAt: -1})
 	ins = append(ins, c18Input{Name: "160-records-then-error", Text: bigIn.String() + "last:\n  nosep\n", FailAt: -1})
+	// a parse error with a scanner-level error right behind it (the next Scan fails): the first error is the parse error
+	ins = append(ins, c18Input{Name: "error-then-over-long-line", Text: "a:\n  x: 1\n  nosep\n  " + strings.Repeat("n", 70000) + ": 1\nb:\n  y: 2\n", FailAt: -1})
+	errText := "a:\n  x: 1\n  nosep\nb:\n  y: 2\n"
+	for _, k := range []int{len("a:\n  x: 1\n  nosep\n"), len("a:\n  x: 1\n  nosep\n") + 1, len("a:\n  x: 1\n  nosep")} {
+		ins = append(ins, c18Input{Name: fmt.Sprintf("error-then-reader-fails-at-%d", k), Text: errText, FailAt: k})
+	}
 	// unreadable
 	ins = append(ins, c18Input{Name: "nonexistent-file", File: "/nonexistent/verif/file.yaml", FailAt: -1})
 	ins = append(ins, c18Input{Name: "directory-as-file", File: os.TempDir(), FailAt: -1})
@@ -111,6 +117,11 @@ func c18Inputs(tier string) []c18Input {
 	for _, k := range offs {
 		ins = append(ins, c18Input{Name: fmt.Sprintf("reader-fails-at-%d", k), Text: full, FailAt: k})
 	}
+	if tier == "thorough" {
+		for k := 0; k <= len(errText); k++ {
+			ins = append(ins, c18Input{Name: fmt.Sprintf("input-with-an-error-reader-fails-at-%d", k), Text: errText, FailAt: k})
+		}
+	}
 	return ins
 }
 
@@ -131,8 +142,14 @@ func (in c18Input) reader() io.Reader {
 
 // reference: the callback parser run sequentially with the policy of ParseStream (stop at the first error).
 func c18Reference(in c18Input) (events []string, finalErr string) {
+	firstCbErr := ""
 	cb := func(n *shared.ParserNode, err error) (bool, error) {
 		if err != nil {
+			// "its first error" is the first error the callback parser REPORTS (passes to its callback); what the function
+			// returns afterwards is checked against it below
+			if firstCbErr == "" {
+				firstCbErr = err.Error()
+			}
 			return true, err
 		}
 		events = append(events, c18Node(n)) // snapshot at callback time
@@ -146,6 +163,9 @@ func c18Reference(in c18Input) (events []string, finalErr string) {
 	}
 	if err != nil {
 		finalErr = err.Error()
+	}
+	if firstCbErr != "" {
+		finalErr = firstCbErr
 	}
 	return
 }
